@@ -228,12 +228,14 @@ func (f *funcObject) hasOwnPropertyStr(name unistring.String) bool {
 }
 
 func (f *funcObject) stringKeys(all bool, accum []Value) []Value {
+	accum = f.baseFuncObject.stringKeys(all, accum)
 	if all {
+		// the lazily created "prototype" is listed where addPrototype() will put it: after "length" and "name"
 		if _, exists := f.values["prototype"]; !exists {
 			accum = append(accum, asciiString("prototype"))
 		}
 	}
-	return f.baseFuncObject.stringKeys(all, accum)
+	return accum
 }
 
 func (f *funcObject) iterateStringKeys() iterNextFunc {
